@@ -1222,7 +1222,8 @@ class Exec(Engine):
                 else:
                     raise Unsupported(f"ghost {g} of {p.key} has no instantiation at call sites")
             nth = sum(1 for e in st.events if e.kind == "call" and e.name == p.key)
-            for name, f in self.eval_clauses(c.requires, cf):
+            skip_pre = fr.contract.hooks.get("skip_call_pre", ()) if fr.contract is not None else ()
+            for name, f in (self.eval_clauses(c.requires, cf) if short not in skip_pre else []):
                 self.emit(cf, f"call.{short}#{nth}.{name}", f, kind="pre", line=line,
                           props=self.props_for(fr.contract, f"call.{short}") or self.props_for(c, name))
             old = st.fork()
@@ -1267,6 +1268,13 @@ class Exec(Engine):
                 res = self.fresh_result(c.result, short)
             for gname, gkind in c.ghost_out.items():
                 st.env[gname] = fresh(gkind, "go_" + gname)
+            out_updates = []
+            for oname in c.out_params:
+                if oname in st.env and st.env[oname].k != "none":
+                    nv = fresh("V", "out_" + oname)
+                    nv.meta = {"coll": "map"}
+                    out_updates.append((oname, nv))
+                    st.env[oname] = nv
             cf.result = res
             cf.old = old
             self.run_ghost(c.ghost_after.get("call"), cf)
@@ -1286,6 +1294,19 @@ class Exec(Engine):
                     st.env = callee_env
                 if r2 is not None:
                     res = r2
+            for oname, nv in out_updates:
+                # rebind the caller's variable that was passed for this parameter
+                argnode = None
+                if isinstance(node, ast.Call):
+                    for kwn in node.keywords:
+                        if kwn.arg == oname:
+                            argnode = kwn.value
+                    params_ = [x.arg for x in p.node.args.posonlyargs + p.node.args.args]
+                    off = 1 if p.bound_self is not None else 0
+                    if argnode is None and oname in params_ and params_.index(oname) - off < len(node.args):
+                        argnode = node.args[params_.index(oname) - off]
+                if isinstance(argnode, ast.Name) and argnode.id in saved:
+                    saved[argnode.id] = nv
             outs.insert(0, Outcome("normal", st, val=res))
             return outs
         finally:
@@ -1418,6 +1439,10 @@ class Exec(Engine):
         except Unsupported as e:
             rep.missing = f"contract precondition not translatable: {e}"
             return rep
+        if c.ensures_guard:
+            # every postcondition is an implication from this guard on the entry state: assume it for the body
+            for name, f in self.eval_clauses([("guard", c.ensures_guard.replace("old(", "("))], sf):
+                st.assume(f)
         # vacuity guard: the precondition must be satisfiable
         self.report.vcs.append(VC("pre.satisfiable", key, st.pc, z3.BoolVal(True), kind="cover", expect="sat",
                                   props=self.props_for(c, "pre.satisfiable")))
